@@ -57,6 +57,17 @@ class Controller:
             self.grant = r
             self.cv.notify_all()
 
+    def settle(self, r, timeout=0.15):
+        """after a grant: wait until the thread has executed the step, i.e. sits at its next gate, is done, or is blocked
+        inside a library call (then the timeout expires).  Makes the effects of consecutive steps of different threads ordered."""
+        t0 = time.time()
+        with self.cv:
+            while self.grant == r or r not in self.at:
+                self.cv.wait(0.005)
+                if time.time() - t0 > timeout:
+                    return False
+        return True
+
     def release_all(self):
         with self.cv:
             self.free_run = True
@@ -141,7 +152,12 @@ def replay_stp(model, step_timeout=1.0):
                 super().run()
             finally:
                 sys.settrace(None)
+                self._verif_done = True
                 ctl.done('worker')
+
+        def is_alive(self):
+            # "finished" in the model = the target function has returned (thread teardown is not a step)
+            return super().is_alive() and not getattr(self, '_verif_done', False)
 
     class _ThreadingProxy:
         def __getattr__(self, name):
@@ -166,14 +182,14 @@ def replay_stp(model, step_timeout=1.0):
             while where not in (line, 'done', None) and guard < 60:
                 ctl.release(th)
                 guard += 1
-                time.sleep(0.0005)
+                ctl.settle(th)
                 where = ctl.wait_gated(th, step_timeout)
             if where != line:
                 mismatches.append(dict(actor=th, wanted=line, got=where, step=followed))
                 break
             ctl.release(th)
             followed += 1
-            time.sleep(0.0005)
+            ctl.settle(th)
         # drain: let everything finish on its own; what cannot finish is blocked
         deadline = time.time() + 3.0
         while time.time() < deadline:
@@ -381,7 +397,7 @@ def replay_lpm_thread(model, step_timeout=1.0):
                     continue
                 ctl.release(role)
                 followed += 1
-                time.sleep(0.0005)
+                ctl.settle(role, 0.05)
                 continue
             th, line = step['actor'], step['line']
             where = ctl.wait_gated(th, step_timeout)
@@ -389,14 +405,14 @@ def replay_lpm_thread(model, step_timeout=1.0):
             while where not in (line, 'done', None) and guard < 400:
                 ctl.release(th)
                 guard += 1
-                time.sleep(0.0003)
+                ctl.settle(th)
                 where = ctl.wait_gated(th, step_timeout)
             if where != line:
                 mismatches.append(dict(actor=th, wanted=line, got=where, step=followed))
                 break
             ctl.release(th)
             followed += 1
-            time.sleep(0.0005)
+            ctl.settle(th)
         # drain
         deadline = time.time() + 3.0
         while time.time() < deadline:
